@@ -195,6 +195,20 @@ Theorem resume_preserves_tls13_sni_suite_refuted :
     s_ccert s = s_ccert v0 /\ s_ccert s = 1 /\ s_sni s <> s_sni v0 /\ s_suite s <> s_suite v0.
 Proof. exact tls13_sni_suite_refuted_witness. Qed.
 
+(* "an honest client's offer of its own unexpired session under a current key resumes or falls back"
+   REFUTED for SRP sessions offered by ticket (open finding, proposed_fixes/C13-5.diff): the ticket
+   carries no SRP user name, so the server aborts with handshake_failure *)
+Theorem honest_srp_ticket_offer_refuted :
+  let w := srun [wit_cfg 3 [1] 400] wit_srp_history in
+  let cp := wit_cp_srp (Some 0) in
+  exists sv h used b p,
+    zget (w_servers w) 0 = Some sv /\
+    client_offer sblob cp (offered sblob w cp) (w_now w) (w_fresh w) = Offer sblob h used /\
+    h_ticket h = Some b /\ sopen 1 b = Some p /\ In 1 (sv_keys (sv_cfg sv)) /\
+    w_now w <= p_created p + sv_life (sv_cfg sv) /\ h_srp h = 1 /\
+    r_out (d_log sblob (conn_delta sblob Sealed sopen w cp sv)) = OAbortS handshake_failure.
+Proof. exact srp_ticket_offer_aborts_witness. Qed.
+
 (* invalidated_never_resumes REFUTED for the ticket path at the server (inherent to stateless tickets,
    RFC 5077; known finding) *)
 Theorem invalidated_never_resumes_ticket_refuted :
